@@ -1,5 +1,52 @@
-"""Native replay of counter-models (filled in per property)."""
+"""Native replay of counter-models.
+
+For a refuted whole-function obligation whose inputs are of simple types (pyvc/replay_harness.py) the real method is run
+by the repository's interpreter on the solver's inputs and the contract's own clauses are evaluated on the observed
+pre- and post-state (pyvc/native/replay_run.py).  If a clause fails natively the violation is reported with that
+concrete input; otherwise the replay file carries the solver's model and the VIOLATION line ends no-failing-input-found.
+"""
+import hashlib
+import json
+import os
+import subprocess
+
+VERIF = os.path.dirname(os.path.dirname(os.path.abspath(__file__)))
 
 
 def try_replay(pid, e):
-    return None, False, '(no native replay harness for this obligation yet)'
+    reqs = e.get('replay_inputs') or []
+    if not reqs:
+        return None, False, '(no native replay for this obligation: inputs are not of simple types, or it is a block / loop obligation)'
+    src = os.environ.get('PYVC_REPO_SRC', '/repo/src')
+    d = os.path.join(VERIF, 'replays', pid)
+    os.makedirs(d, exist_ok=True)
+    h = hashlib.sha1(e['name'].encode()).hexdigest()[:12]
+    notes = []
+    for n, req in enumerate(reqs[:4]):
+        rq = os.path.join(d, f'{h}.input{n}.json')
+        with open(rq, 'w') as f:
+            json.dump(req, f, indent=1)
+        cmd = ['/venv/bin/python', os.path.join(VERIF, 'pyvc', 'native', 'replay_run.py'), rq]
+        env = dict(os.environ, PYTHONPATH=src + os.pathsep + VERIF)
+        try:
+            p = subprocess.run(cmd, capture_output=True, text=True, env=env, timeout=120, cwd=d)
+            out = json.loads(p.stdout.strip().splitlines()[-1])
+        except Exception as ex:  # noqa
+            notes.append(f'(native replay of input {n} did not run: {ex!r})')
+            continue
+        if out.get('unsupported'):
+            notes.append(f'(native replay of input {n} not possible: {out["unsupported"]})')
+            continue
+        if out.get('failed') and out.get('precondition_holds', True):
+            fn = os.path.join(d, f'{h}.replay.txt')
+            with open(fn, 'w') as f:
+                f.write(f'property: {pid}\nfailed obligation: {e["name"]}\nclause: {e.get("clause")}\n\n'
+                        f'REPLAYED on the real code ({src}):\n  PYTHONPATH={src}:{VERIF} {" ".join(cmd)}\n\n'
+                        f'receiver {req["cls"]} fields: {json.dumps(req["fields"])}\ncall: {req["method"]}({json.dumps(req["args"])})\n'
+                        f'observed: {out["outcome"]}, result {json.dumps(out.get("result"))}\n'
+                        f'state after: {json.dumps(out.get("post_fields"))}\n\ncontract clauses that FAIL on this run:\n  '
+                        + '\n  '.join(out['failed']) + '\n')
+            return fn, True, ''
+        notes.append(f'(input {n} replayed natively: the real code satisfies every clause on it -- the counter-model is not '
+                     f'a failing input of the real code: {json.dumps(req["args"])})')
+    return None, False, '\n'.join(notes)
